@@ -50,6 +50,9 @@ func init() {
 		"sync/atomic.LoadUint32":              extAtomicLoad,
 		"sync/atomic.LoadUint64":              extAtomicLoad,
 		"sync/atomic.LoadPointer":             extAtomicLoad,
+		"sync/atomic.StorePointer":            extAtomicStore,
+		"sync/atomic.SwapPointer":             extAtomicSwap,
+		"sync/atomic.CompareAndSwapPointer":   extAtomicCAS,
 		"sync/atomic.StoreInt32":              extAtomicStore,
 		"sync/atomic.StoreInt64":              extAtomicStore,
 		"sync/atomic.StoreUint32":             extAtomicStore,
